@@ -67,6 +67,15 @@ def o_equals(inp):
     sb = [(k, t, tuple(v) if isinstance(v, list) else v) for (k, t, v) in sb]
     flags = tuple(inp["flags"])
     kind = inp.get("kind", "")
+    # replayable process history: the comparisons made just before this one (state must not leak from one call to the next)
+    for b in inp.get("before") or []:
+        try:
+            A0, _ = build([tuple(x) for x in b["a"]["notes"]], [(k, t, tuple(v) if isinstance(v, list) else v) for (k, t, v) in b["a"]["sigs"]])
+            B0, _ = build([tuple(x) for x in b["b"]["notes"]], [(k, t, tuple(v) if isinstance(v, list) else v) for (k, t, v) in b["b"]["sigs"]])
+            fb = tuple(b["flags"])
+            A0.equals(B0, ignore_channel=fb[0], ignore_time_signature=fb[1], ignore_key_signature=fb[2], ignore_velocity=fb[3])
+        except Exception:
+            pass
     if inp.get("order_b") is not None and sorted(inp["order_b"]) != list(range(2 * len(nb) + len(sb))):
         return [("~skip:order-is-not-a-permutation", "")]
     fails = []
@@ -102,6 +111,7 @@ def o_equals(inp):
 
 def setup(ctx):
     ctx.oracle("equals", o_equals)
+    ctx.history_oracles = {"equals"}
 
 
 def perturbations(rng, notes, sigs):
